@@ -311,10 +311,11 @@ def drive(exe, lines, args=(), workdir=False, timeout_per_case=20.0, env=None):
                 else:
                     out.append("fault hang" if stderr == "TIMEOUT" else classify_crash(stderr))
                 i += 1
-                nfaults += 1
-                if nfaults >= 12:
-                    # the run already has its failing inputs; do not spend minutes on more of them
-                    out.extend(["fault skipped-after-12-faults"] * (len(lines) - i))
+                if stderr == "TIMEOUT":
+                    nfaults += 1
+                if nfaults >= 6:
+                    # several hangs: the run already has its failing inputs; do not spend minutes on more
+                    out.extend(["fault skipped-after-6-hangs"] * (len(lines) - i))
                     i = len(lines)
         return out
     finally:
